@@ -39,7 +39,7 @@ pub fn one_len<T: Real>(n: usize, planners: &[PK], rep: &mut Report, only: Optio
     for (pk, d, f) in &ffts {
         rep.states += 1;
         for e in Entry::EXPLICIT {
-            for k in if light { vec![1usize] } else { vec![1usize, 2] } {
+            for k in if light { vec![1usize] } else { vec![1usize, 2, 3] } {
                 if let Some((opk, od, oe, ok)) = only {
                     if opk != *pk || od != *d || oe != e || ok != k {
                         continue;
@@ -51,7 +51,8 @@ pub fn one_len<T: Real>(n: usize, planners: &[PK], rep: &mut Report, only: Optio
                 }
                 let adv = e.scratch_len(f.as_ref());
                 let mut reference: Option<Vec<C<T>>> = None;
-                let mut lens_: Vec<usize> = if light { vec![adv, adv + 17] } else { vec![adv, adv + 1, adv + 17, 2 * adv] };
+                let mut lens_: Vec<usize> = if light { vec![adv, adv + 17] } else { vec![adv, adv + 1, adv + 17, 2 * adv, adv.max(2 * n) + 1] };
+                lens_.sort();
                 lens_.dedup();
                 for &sl in &lens_ {
                     for (sname, sval) in &cont {
@@ -224,7 +225,7 @@ pub fn run(ctx: &Ctx) -> i32 {
     rep.set("pool_lengths", Json::Arr(pool.iter().map(|x| Json::Int(x.0 as i64)).collect()));
     rep.set("lengths_beyond_2^16", Json::Arr(big.iter().map(|x| Json::Int(*x as i64)).collect()));
     rep.rule = format!(
-        "planners x {{f32,f64}} x {{fwd,inv}} x every n in 1..={dn} (plus {pc} pool lengths up to {ph}, plus the lengths_beyond_2^16 with a thinned product: k=1, scratch adv/adv+17, contents zero/NaN/huge) x the 3 explicit-scratch entry points x k in {{1,2}} x scratch length in {{adv, adv+1, adv+17, 2*adv}} x initial scratch content in {{0, NaN, +Inf, -Inf, huge, bit pattern}} x initial output content in the same 6: the full product; every variant must complete, be finite and be bit-identical to the (zero, advertised) variant. exact layer: FftPlanner::<Fp>, n in 1..={en}, poison-tagged scratch (adv, +1, +17) and output: no poison in the result, result equals the DFT in F_p. Non-trivial: n >= 2.",
+        "planners x {{f32,f64}} x {{fwd,inv}} x every n in 1..={dn} (plus {pc} pool lengths up to {ph}, plus the lengths_beyond_2^16 with a thinned product: k=1, scratch adv/adv+17, contents zero/NaN/huge) x the 3 explicit-scratch entry points x k in {{1,2,3}} x scratch length in {{adv, adv+1, adv+17, 2*adv, max(adv,2n)+1}} x initial scratch content in {{0, NaN, +Inf, -Inf, huge, bit pattern}} x initial output content in the same 6: the full product; every variant must complete, be finite and be bit-identical to the (zero, advertised) variant. exact layer: FftPlanner::<Fp>, n in 1..={en}, poison-tagged scratch (adv, +1, +17) and output: no poison in the result, result equals the DFT in F_p. Non-trivial: n >= 2.",
         dn = dense_n,
         pc = pool.len(),
         ph = t.pick(1 << 13, 1 << 14),
